@@ -54,13 +54,58 @@ class _CellsLog:
         self.log.append(("add", atom.name))
 
 
+ATOM_ORDER = [None]  # listing order of the target residue's atom records in the input: None (template) / "alphabetical" / "reversed"
+
+
+def _peptide(seq, idx):
+    lines = fixtures.peptide_lines(seq)
+    order = ATOM_ORDER[0]
+    if order:
+        mine = [i for i, ln in enumerate(lines) if ln.startswith("ATOM") and int(ln[22:26]) == idx + 1]
+        block = [lines[i] for i in mine]
+        block = sorted(block, key=lambda ln: ln[12:16].strip()) if order == "alphabetical" else list(reversed(block))
+        for i, ln in zip(mine, block):
+            lines[i] = ln
+    return lines
+
+
+WARM = [False]  # the Debump object already served a pass on the heavy-atom structure (as in main: debump, add hydrogens, debump)
+_WARMED = {}
+
+
+def _new_debump(bm):
+    """the Debump object for this structure: a fresh one, or - WARM - the one that was used before hydrogens were added"""
+    from pdb2pqr import debump
+
+    return _WARMED.pop(id(bm), None) or debump.Debump(bm)
+
+
 def _setup(resname, position, neutral):
     seq = ["ALA", "ALA", "ALA"]
     idx = POSITIONS[position]
     seq[idx] = resname
-    bm, _ = fixtures.prepared(fixtures.peptide_lines(seq), neutraln=neutral, neutralc=neutral)
+    bm, _ = fixtures.prepared(_peptide(seq, idx), neutraln=neutral, neutralc=neutral)
     if bm.num_missing_heavy:
         bm.repair_heavy()
+    if WARM[0]:
+        from pdb2pqr import cells as cells_mod
+        from pdb2pqr import debump
+        from pdb2pqr.config import CELL_SIZE
+
+        deb = debump.Debump(bm)
+        deb.cells = cells_mod.Cells(CELL_SIZE)
+        deb.cells.assign_cells(bm)
+        bm.update_internal_bonds()
+        bm.calculate_dihedral_angles()
+        bm.set_reference_distance()
+        r0 = bm.residues[idx]
+        for k in range(len(r0.reference.dihedrals)):
+            if k < len(r0.dihedrals) and r0.dihedrals[k] is not None:
+                start = r0.dihedrals[k]
+                deb.score_dihedral_angle(r0, k)
+                deb.set_dihedral_angle(r0, k, start + 5.0)
+                deb.set_dihedral_angle(r0, k, start)
+        _WARMED[id(bm)] = deb
     bm.add_hydrogens()
     bm.update_internal_bonds()
     bm.calculate_dihedral_angles()
@@ -82,7 +127,7 @@ def symbolic_steps(resname, position, neutral, steps):
     with lemma.Session() as S:
         for a in res.atoms:
             a.x, a.y, a.z = (S.real(f"{a.name}_{k}") for k in "xyz")
-        deb = debump.Debump(bm)
+        deb = _new_debump(bm)
         deb.cells = _CellsLog()
         state = {}
 
@@ -163,11 +208,8 @@ def _concrete_demo(resname, position, anglenum, neutral, moved_atom, fixed_atom)
     seq = ["ALA", "ALA", "ALA"]
     idx = POSITIONS[position]
     seq[idx] = resname
-    bm, _ = fixtures.prepared(fixtures.peptide_lines(seq), neutraln=neutral, neutralc=neutral)
-    if bm.num_missing_heavy:
-        bm.repair_heavy()
-    bm.add_hydrogens()
-    deb = debump.Debump(bm)
+    bm, _res = _setup(resname, position, neutral)
+    deb = _new_debump(bm)
     from pdb2pqr import cells as cells_mod
     from pdb2pqr.config import CELL_SIZE
 
@@ -195,7 +237,7 @@ def _angle_demo(resname, position, anglenum, neutral):
     from pdb2pqr.config import CELL_SIZE
 
     bm, res = _setup(resname, position, neutral)
-    deb = debump.Debump(bm)
+    deb = _new_debump(bm)
     deb.cells = cells_mod.Cells(CELL_SIZE)
     deb.cells.assign_cells(bm)
     bonds = [bd for bd in _bonds(res) if not res.get_atom(bd[0]).is_hydrogen and not res.get_atom(bd[1]).is_hydrogen]
@@ -216,8 +258,19 @@ def _angle_demo(resname, position, anglenum, neutral):
     return "; ".join(changed[:3])
 
 
-def run_classification(resname, position, neutral=False, heavy_only=True, prop="C04"):
+def run_classification(resname, position, neutral=False, heavy_only=True, prop="C04", order=None, warm=False):
     """lemma obligation for one residue at one chain position: all dihedrals."""
+    ATOM_ORDER[0] = order
+    WARM[0] = warm
+    try:
+        return _run_classification(resname, position, neutral, heavy_only, prop)
+    finally:
+        ATOM_ORDER[0] = None
+        WARM[0] = False
+        _WARMED.clear()
+
+
+def _run_classification(resname, position, neutral=False, heavy_only=True, prop="C04"):
     out = {"lemma_queries": {"sat": 0, "unsat": 0, "unknown": 0}, "lemma_solver_s": 0.0, "distinct": 0, "violations": [], "inconclusive": [], "samples": []}
     seq = ["ALA", "ALA", "ALA"]
     seq[POSITIONS[position]] = resname
@@ -309,7 +362,7 @@ def _sequence_demo(resname, position, neutral, steps):
     from pdb2pqr.config import CELL_SIZE
 
     bm, res = _setup(resname, position, neutral)
-    deb = debump.Debump(bm)
+    deb = _new_debump(bm)
     deb.cells = cells_mod.Cells(CELL_SIZE)
     deb.cells.assign_cells(bm)
     bonds = _bonds(res)
@@ -663,6 +716,14 @@ def obligations(tier, prop="C04"):
         if tier == "thorough" or r in ("SER", "LYS"):
             for pos in ("nterm", "cterm"):
                 obs.append(Obligation(f"rotation-{r}-{pos}-neutral", run_classification, dict(resname=r, position=pos, neutral=True, prop=prop), kind="lemma", group="rotation"))
+    # the rotating group must not depend on the order in which the input lists the residue's atoms
+    for r in ("HIS", "LEU", "LYS", "TYR") if tier == "quick" else residues:
+        for order in ("alphabetical", "reversed"):
+            obs.append(Obligation(f"rotation-{r}-internal-{order}", run_classification, dict(resname=r, position="internal", neutral=False, prop=prop, order=order), kind="lemma", group="rotation"))
+    # the Debump object is reused across passes (debump, add hydrogens, debump / flips): nothing it remembers from the
+    # heavy-atom pass may decide which atoms turn later
+    for r in ("LYS", "HIS", "SER") if tier == "quick" else residues:
+        obs.append(Obligation(f"rotation-{r}-internal-reused-debump-object", run_classification, dict(resname=r, position="internal", neutral=False, prop=prop, warm=True), kind="lemma", group="rotation"))
     if prop == "C04":
         from . import c15
 
